@@ -86,6 +86,11 @@ class Tally:
             self.failures.append({"kind": kind, "scenario": scenario, "expected": expected, "got": got,
                                   "signature": signature, "what": what})
 
+    def saturated(self, kind="spec", n=12):
+        """enough failures of this kind recorded: a long-running generator loop may stop (each failure costs simulation time
+        on a broken tree; on a tree where the property holds this never triggers)"""
+        return sum(1 for f in self.failures if f["kind"] == kind) >= n
+
     def result(self, rule, **extra):
         r = {"evaluations": self.evaluations, "distinct_nontrivial": len(self.distinct), "rule": rule,
              "samples": self.samples, "failures": self.failures, "distribution": self.dist,
